@@ -423,3 +423,117 @@ func (a *ownAnalysis) appendReallocates(c *Ctx, u FuncUnit, e ast.Expr, site ast
 	})
 	return len(nonEmpty) > 0 && !fc.reachableAvoiding(loc.B, nonEmpty)
 }
+
+func init() {
+	register(&Rule{ID: "MAP.backing-fresh", Floor: 1,
+		Doc: "a sorted map's backing (lisp.sortedmap: the value table and the key-spelling table) is only ever built with both tables freshly made: no copy or clone shares a table between two maps",
+		Run: func(c *Ctx) []Obligation {
+			sm := c.LookupType("lisp.sortedmap")
+			if sm == nil {
+				return []Obligation{anchorMissing("MAP.backing-fresh", "lisp.sortedmap")}
+			}
+			var obs []Obligation
+			for _, u := range c.Funcs(nil) {
+				info := u.Pkg.TypesInfo
+				ord := &ordinal{}
+				ast.Inspect(u.Decl.Body, func(n ast.Node) bool {
+					cl, ok := n.(*ast.CompositeLit)
+					if !ok {
+						return true
+					}
+					tv, ok := info.Types[cl]
+					if !ok {
+						return true
+					}
+					nt, ok := types.Unalias(tv.Type).(*types.Named)
+					if !ok || nt.Obj() != sm.Obj() {
+						return true
+					}
+					construct := ord.next("sortedmap literal")
+					allFresh := len(cl.Elts) == 2
+					for _, el := range cl.Elts {
+						v := el
+						if kv, ok := el.(*ast.KeyValueExpr); ok {
+							v = kv.Value
+						}
+						ce, ok := ast.Unparen(v).(*ast.CallExpr)
+						if !ok {
+							allFresh = false
+							continue
+						}
+						if id, ok := ast.Unparen(ce.Fun).(*ast.Ident); !ok || id.Name != "make" {
+							allFresh = false
+						}
+					}
+					if allFresh {
+						obs = append(obs, mkOb(c, "MAP.backing-fresh", u, construct, cl, Proved, "both tables are made fresh", false))
+					} else {
+						obs = append(obs, mkOb(c, "MAP.backing-fresh", u, construct, cl, Violated, "a sorted-map backing is assembled from existing tables: two maps would share a mutable table, so changing one (assoc, key spelling) shows through the other", true))
+					}
+					return true
+				})
+				// field stores m.m = / m.tm =
+				for _, w := range c.censusFor(nil).Writes {
+					_ = w
+				}
+			}
+			// stores to the two fields: only fresh tables
+			for _, fname := range []string{"lisp.sortedmap.m", "lisp.sortedmap.tm"} {
+				if f := c.LookupField(fname); f != nil {
+					for _, w := range c.censusFor(nil).WritersOf(f) {
+						if w.Kind != "assign" {
+							continue
+						}
+						isMake := false
+						if ce, ok := ast.Unparen(w.RHS).(*ast.CallExpr); ok {
+							if id, ok := ast.Unparen(ce.Fun).(*ast.Ident); ok && id.Name == "make" {
+								isMake = true
+							}
+						}
+						if isMake {
+							obs = append(obs, mkOb(c, "MAP.backing-fresh", w.Unit, "store "+fname, w.Node, Proved, "table replaced by a freshly made one", false))
+						} else {
+							obs = append(obs, mkOb(c, "MAP.backing-fresh", w.Unit, "store "+fname, w.Node, Violated, "a sorted map's table is replaced by an existing table", true))
+						}
+					}
+				}
+			}
+			// struct copies of a sortedmap value share both tables
+			for _, u := range c.Funcs(nil) {
+				info := u.Pkg.TypesInfo
+				ord := &ordinal{}
+				ast.Inspect(u.Decl.Body, func(n ast.Node) bool {
+					as, ok := n.(*ast.AssignStmt)
+					if !ok || len(as.Lhs) != len(as.Rhs) {
+						return true
+					}
+					for i, r := range as.Rhs {
+						tv, ok := info.Types[r]
+						if !ok {
+							continue
+						}
+						nt, ok := types.Unalias(tv.Type).(*types.Named)
+						if !ok || nt.Obj() != sm.Obj() {
+							continue
+						}
+						if _, isLit := ast.Unparen(r).(*ast.CompositeLit); isLit {
+							continue
+						}
+						if ce, ok := ast.Unparen(r).(*ast.CallExpr); ok {
+							if fn := Callee(info, ce); fn != nil && FuncName(originOf(fn)) == "lisp.newmap" {
+								continue
+							}
+						}
+						if _, isTA := ast.Unparen(r).(*ast.TypeAssertExpr); isTA {
+							continue // reading the backing out of the interface, not making a second map
+						}
+						_ = i
+						obs = append(obs, mkOb(c, "MAP.backing-fresh", u, ord.next("copy of a sortedmap value"), as, Violated,
+							"copies a sortedmap struct: the copy shares both tables with the original (assoc / key-spelling changes on one map show through the other)", true))
+					}
+					return true
+				})
+			}
+			return obs
+		}})
+}
